@@ -79,13 +79,7 @@ LEVEL_NOTE = ("Trusted: vmon/models/damagedinput.py (literal reading, frozen ele
 # Mechanisms by which the UNCHANGED library breaks the property (written up in tools/findings/C10-ext.json with a proposed
 # fix).  They are evaluated and counted ("known-on-unchanged-tree:<key>") but not reported.  REMOVE the entries once the
 # library is repaired: the check then reports them like everything else.
-KNOWN_ON_UNCHANGED_TREE = {
-    # `res.atoms[b.a1 - 1]`, `parsed_atoms[atom - 1]`, `parsed_bonds[bond - 1]`: 0 and negative numbers are taken as
-    # Python's from-the-end indices, so a bond to "atom 0" joins the last atom, a charge for "atom -3" lands on atom n-3
-    "C10:mol2:incomplete-record-returned:bond-endpoint-below-one",
-    "C10:mol2:incomplete-record-returned:unity_atom_attr-index-below-one",
-    "C10:mol2:incomplete-record-returned:unity_bond_attr-index-below-one",
-}
+KNOWN_ON_UNCHANGED_TREE = set()      # (its three entries were repaired in the library: b2e727f)
 if os.environ.get("VERIF_C10_REPORT_KNOWN"):       # to try a repaired library before the set above is removed
     KNOWN_ON_UNCHANGED_TREE = set()
 
